@@ -18,8 +18,14 @@ def ows(rng):
 	return rng.choice([b'', b' ', b' ', b'  ', b'\t', b' \t'])
 
 
+BIG = [False]      # set by a generator for a while: bodies around the sizes a buffer, a window or a limit would have
+
+
 def gen_body(rng):
 	n = rng.choice((0, 1, 2, 5, 17, 64, 300))
+	if BIG[0]:
+		n = rng.choice((4095, 4096, 4097, 8192, 16385, 32767, 32768, 65535, 65536, 65537, 100000, 262144))
+		return (bytes(rng.randrange(256) for _ in range(251)) * (n // 251 + 1))[:n]
 	mode = rng.randrange(3)
 	if mode == 0:
 		return bytes(rng.randrange(256) for _ in range(n))
@@ -34,7 +40,7 @@ def chunked(rng, body, trailers):
 	parts = []
 	i = 0
 	while i < len(body):
-		k = rng.choice((1, 1, 2, 3, 7, 50, len(body)))
+		k = rng.choice((1, 1, 2, 3, 7, 50, len(body))) if len(body) < 4000 else rng.choice((4096, 65535, 65536, 65537, 7, 1000, len(body)))
 		part = body[i:i + k]
 		i += len(part)
 		parts.append(part)
